@@ -188,10 +188,6 @@ impl BufferPool {
 
     /// Return a buffer to the appropriate pool
     fn return_buffer(&self, buffer: Vec<u8>, size: BufferSize) {
-        if self.config.collect_stats {
-            self.stats.returns.fetch_add(1, Ordering::Relaxed);
-        }
-
         let pool = match size {
             BufferSize::Small => &self.small_pool,
             BufferSize::Medium => &self.medium_pool,
@@ -203,8 +199,13 @@ impl BufferPool {
             pool_guard.return_buffer(buffer)
         };
 
-        if !accepted && self.config.collect_stats {
-            self.stats.discards.fetch_add(1, Ordering::Relaxed);
+        // `returns` counts buffers the pool kept, `discards` the ones it dropped: every drop is exactly one of the two
+        if self.config.collect_stats {
+            if accepted {
+                self.stats.returns.fetch_add(1, Ordering::Relaxed);
+            } else {
+                self.stats.discards.fetch_add(1, Ordering::Relaxed);
+            }
         }
     }
 
